@@ -227,9 +227,40 @@ def gen_wire(rng, tier):
         yield make_case(Stream(items), table, rng.chance(20), rng)
 
 
+def gen_bmpwire(rng, tier):
+    """hostile variants of sessions whose frames come from the PROVED BMP encoder (oracle bmpenc); where every frame the receiver
+    hands to the parser is one of them (or trivially unparsable) the model decodes for itself (`T *`, C06_wire_*), else shape mode"""
+    quick = tier == "quick"
+    streams, pool = [], {}
+    for i in range(6 if quick else 40):
+        d, pl = wire_stream(rng.fork("bw%d" % i), nmsgs=rng.range(2, 7), terminate=rng.chance(30), tag="%d." % i)
+        streams.append(d)
+        pool.update(pl)
+    for i in range(600 if quick else 20000):
+        s = rng.choice(streams)
+        table = {pool[d]: d for d in s}
+        items, bounds = [], []
+        for d in s:
+            bounds.append(len(items))
+            items += list(bytes.fromhex(pool[d]))
+        k = rng.weighted([("errs", 45), ("cut", 25), ("mut", 20), ("short", 10)])
+        if k == "mut":
+            items = mutate(rng, items, [b for b in bounds if b < len(items)])
+        elif k == "cut":
+            items = items[:rng.below(len(items) + 1)]
+        elif k == "short":
+            items = items[:rng.choice(bounds)] + [3, 0, 0, 0, rng.below(5)] + [rng.below(256) for _ in range(rng.below(10))]
+        for _ in range(rng.weighted([(0, 25), (1, 35), (2, 25), (4, 15)])):
+            items.insert(rng.below(len(items) + 1), rng.choice(KINDS))
+        if rng.chance(30):
+            items.insert(rng.below(len(items) + 1), GET)
+        yield make_case(Stream(items), table, rng.chance(20), rng)
+
+
 def gen_all(rng, tier):
     yield from gen(rng, tier)
     yield from gen_wire(rng.fork("wire"), tier)
+    yield from gen_bmpwire(rng.fork("bmpwire"), tier)
 
 
 def nontrivial(case, out):
